@@ -111,18 +111,18 @@ NOT_YET = {}
 
 # what rounds 3 and 4 of the seeded changes added to the drivers (appended to the level text)
 ADDENDA = {
- "C01": " Added later: rows longer than a page and menu-less sink pages, a menu separator longer than ':', and output sizes at the 16-bit boundary (65535..2^32-1) with a 70 kB page.",
+ "C01": " Added later: rows longer than a page and menu-less sink pages, a menu separator longer than ':', and output sizes at the 16-bit boundary (65535..2^32-1) with a 70 kB page. Round 5: an application whose final page is larger than all others AND ends with a value (one open known finding: the final page is dropped silently when only the value fits).",
  "C02": " Added later: a three-byte menu separator and browse labels that the resource expands, in one slot of the family each.",
  "C03": " Added later: in the last position of a history also a selector followed by a blank, an input with a formatting verb and an input with template syntax; the catch page must render.",
- "C04": " Added later at the engine level: a flushing persister, an engine with a first function, a first function that refuses a request (the position stays), and ResetOnEmptyInput with the empty input (four further modes).",
+ "C04": " Added later at the engine level: a flushing persister, an engine with a first function, a first function that refuses a request (the position stays), and ResetOnEmptyInput with the empty input (four further modes). Round 5: a second alphabet with an edge back to the entry node (the entry node below itself on the stack), and a directed history to the deepest stack level (128 descents, then repeats, lateral moves and an ascent) with and without a first function.",
  "C05": " Added later: a multi-byte answer (limits count bytes) and a directed family of four applications (taken and not-taken CATCH after MAP and MOUT, a sink symbol reused as a sized value, a value loaded below the entry node and left before the session ends), all histories of depth 4/5 in both modes with and without an output size.",
- "C07": " Added later: an engine WITH a persister kept for the whole session, a gateway that serves each request through engine.Loop, and - per application - all pairs of histories of two sessions served alternately (second one also starting two requests later) through ONE flushing persister, compared with being served alone; corpus applications with a first function, two lists with different browse labels, a failing load followed by another failing instruction.",
- "C08": " Added later: deep descents with a first function and after a failed load, junk input at the deepest point; terminated sessions that client code unblocks by clearing TERMINATE in the stored record.",
+ "C07": " Added later: an engine WITH a persister kept for the whole session, a gateway that serves each request through engine.Loop, and - per application - all pairs of histories of two sessions served alternately (second one also starting two requests later) through ONE flushing persister, compared with being served alone; corpus applications with a first function, two lists with different browse labels, a failing load followed by another failing instruction. Round 5: a twin whose application functions keep their own data in the store handle the persister uses (examples/db arrangement).",
+ "C08": " Added later: deep descents with a first function and after a failed load, junk input at the deepest point; terminated sessions that client code unblocks by clearing TERMINATE in the stored record. Round 5: a first function that fails on one request of the session (defect found and fixed).",
  "C09": " One of the values is the byte 0xff (not valid UTF-8); the clone copies every scalar field the tree declares.",
  "C10": " Added later: SetLock(0,false) as a seal request, eng (the library's default language) as one of the two languages, keys handed over as slices with caller-owned bytes behind them, value buffers overwritten by the caller after the call, and keys of 251/252 bytes.",
  "C11": " Added later: listing on the Postgres backend, sessions whose ids contain each other (own listing exact), records copied with Get+Put, and three persister arrangements (one per session, one re-pointed with WithSession, store handle shared with code that selects USERDATA).",
  "C12": " Added later: every operation of the request is also answered once with an I/O error (refused; writes also as short writes) after which the request runs on - also with a flushing persister and a client that retries a failed Finish; and for every history the next start's read of the record fails once.",
- "C13": " Added later: Stop directly after an error inside the explicit transaction (may fail; if it reports success the transaction's writes are there).",
+ "C13": " Added later: Stop directly after an error inside the explicit transaction (may fail; if it reports success the transaction's writes are there). Round 5: the listing (Dump of the common prefix, drained or left after the first entry) and Abort without an explicit transaction are operations of the userdata variant's alphabet (thorough: length 5; the core alphabet without them: length 6); the '-after-earlier-stop' qualifier of the open findings is dropped for runs that leave that mode with Abort/Start before using it, and losses caused by the rollback of the leaked transaction carry a suffix of their own.",
  "C14": " Added later: every spelling of vm.NewLine's integer argument (empty, minimal, zero-padded).",
  "C15": " A panic raised in Vm.Run's own frame (opcode dispatch) counts as a decoding panic.",
  "C17": " Added later: an engine with persister kept for the session; the previous page fetched only after the refusal; an application-registered input format (and one that does not compile); every non-alphanumeric single byte; every input handed over in one reused read buffer; and the same question put to engine.Loop (over-long line in the middle of its input).",
